@@ -307,11 +307,87 @@ def fold_correspondence(ctx):
     ctx.corr("fused_fold_peak_and_projection", "Model.Util Model.Memory Model.AllocTrace", cases, defs="Local Open Scope Z_scope.", chunk=100)
 
 
+def _blocks(k, shape, dtype, seed):
+    # each block is allocated directly in its dtype: exactly x bytes, no temporaries (the model's read phase with rc = 0)
+    for i in range(k):
+        yield np.full(shape, (seed + i) % 50, dtype=dtype)
+
+
+def partial_reduce_correspondence(ctx):
+    """K: (a) the real _partial_reduce (cubed/core/ops.py) run on k in-memory blocks with NumPy's sum under tracemalloc: measured
+    peak vs Model.PartialReduce.pr_task_peak (read copies 0, no write); (b) projected_mem of the first-round op of real
+    reductions vs Model.PartialReduce.pr_projected"""
+    from functools import partial
+
+    import cubed
+    import cubed.array_api as xp
+    import cubed.backend_array_api as bapi
+    from cubed.core.ops import _partial_reduce
+    from cubed.utils import chunk_memory
+
+    nxp = bapi.namespace
+    cases = []
+    for _ in range(ctx.n(10, 80)):
+        k = ctx.rng.choice([1, 2, 3, 4, 4, 6])
+        din, dout = ctx.rng.choice([("uint8", "uint64"), ("int8", "int64"), ("float32", "float64"), ("float64", "float64"), ("int32", "int64"), ("uint8", "uint64")])
+        rows = ctx.rng.choice([1, 1, 1, 2, 4])
+        N = ctx.rng.choice([300_000, 400_000, 500_000])
+        x = rows * N * np.dtype(din).itemsize
+        R = N * np.dtype(dout).itemsize
+        init = partial(nxp.sum, axis=(0,), keepdims=True, dtype=dout)
+        red = partial(nxp.sum, dtype=dout)
+        tracemalloc.start()
+        try:
+            base = tracemalloc.get_traced_memory()[0]
+            tracemalloc.reset_peak()
+            res = _partial_reduce(_blocks(k, (rows, N), din, ctx.rng.randrange(10**6)), reduce_func=red, initial_func=init, axis=(0,))
+            peak = tracemalloc.get_traced_memory()[1] - base
+            del res
+        finally:
+            tracemalloc.stop()
+        ctx.evaluations += 1
+        ctx.count(f"partial-reduce:k={k}")
+        ctx.nt({"partial_reduce": (k, din, dout, rows)})
+        desc = {"k": k, "in": din, "out": dout, "rows": rows, "N": N, "x": x, "R": R, "measured": peak}
+        tol = max(int(0.02 * peak), 100_000)
+        cases.append({"expr": f"Z.abs (pr_task_peak 0 0 {cZ(x)} {cZ(R)} {cZ(R)} true {k} - {cZ(peak)}) <=? {cZ(tol)}",
+                      "desc": desc, "show": f"pr_task_peak 0 0 {cZ(x)} {cZ(R)} {cZ(R)} true {k}"})
+    ctx.corr("partial_reduce_task_peak", "Model.Util Model.Memory Model.PartialReduce", cases, defs="Local Open Scope Z_scope.", chunk=100)
+    # (b) projections of real plans
+    cases = []
+    for _ in range(ctx.n(12, 100)):
+        din = ctx.rng.choice(["uint8", "int8", "float32", "float64", "int32"])
+        shape = (ctx.rng.randint(4, 12), ctx.rng.choice([1000, 5000, 20000]))
+        chunks = (ctx.rng.choice([1, 2, 3]), shape[1])
+        reserved = ctx.rng.choice([0, 1000, MB])
+        spec = cubed.Spec(allowed_mem="2GB", reserved_mem=reserved, zarr_compressor=None)
+        with warnings.catch_warnings():
+            warnings.simplefilter("ignore")
+            a = cubed.from_array(np.zeros(shape, dtype=din), chunks=chunks, spec=spec)
+            y = xp.sum(a, axis=0) if ctx.rng.random() < 0.7 else xp.max(a, axis=0)
+            plan = y.plan(optimize_graph=False)
+        # the first-round op: reads a's array, func_name sum/max, its primitive op has num_input_blocks > 1 (streams blocks)
+        firsts = [d for n, d in plan.dag.nodes(data=True) if d.get("primitive_op") is not None and a.name in d["primitive_op"].source_array_names
+                  and d.get("func_name") in ("sum", "max")]
+        if len(firsts) != 1:
+            ctx.count("partial-reduce-plan-shape-unexpected")
+            continue
+        pop = firsts[0]["primitive_op"]
+        x = int(a.chunkmem)
+        R = int(chunk_memory(pop.target_array))
+        ctx.evaluations += 1
+        cases.append({"expr": f"Z.eqb (pr_projected {cZ(reserved)} 1 1 {cZ(x)} {cZ(R)} true) {cZ(int(pop.projected_mem))}",
+                      "desc": {"dtype": din, "shape": shape, "chunks": chunks, "reserved": reserved, "x": x, "R": R, "projected": int(pop.projected_mem)},
+                      "show": f"pr_projected {cZ(reserved)} 1 1 {cZ(x)} {cZ(R)} true"})
+    ctx.corr("partial_reduce_projection", "Model.Util Model.Memory Model.PartialReduce", cases, defs="Local Open Scope Z_scope.", chunk=100)
+
+
 def run(ctx):
     warnings.filterwarnings("ignore")
     cases = pmap(ctx, work, [6] * (ctx.n(96, 1500) // 6), procs=8)
     ctx.corr("elementwise_formula_and_model_peak", "Model.Util Model.Memory Model.AllocTrace", cases.get("formula", []), defs="Local Open Scope Z_scope.", chunk=200)
     fold_correspondence(ctx)
+    partial_reduce_correspondence(ctx)
 
 
 def search(ctx):
